@@ -14,6 +14,7 @@ import Reamber.Lemmas.RateSMWrite
 import Reamber.Lemmas.RateSMFull
 import Reamber.Lemmas.RateSMBridge
 import Reamber.Lemmas.RateBMS
+import Reamber.Lemmas.RateBMSDec
 import Reamber.Props.C01
 import Reamber.Props.C06
 
@@ -384,57 +385,149 @@ theorem rate_write_read_sm {r : Rat} (hr : 0 < r) (t0 : Rat) (cs : List BcSnap)
   exact hp
 
 open Timing BMS PermInv in
-/-- **rate_write_read_bms_partial** — BMS, the whole file, by composition with C05's `bms_write_read`.  `cs` a tempo list
-in C05's domain, `c` a chart whose tempo rows are (in any order) the stored form of `cs` with the first tempo point at
-time 0 (BMS has no file offset — ¬D35; the rated chart keeps it: `0 / r = 0`), `BmsOk`, `HeaderOK`; `r > 0`.  The
-rate-invariant part of C05's domain is derived for the rated chart `rateB r c` (tempo list `cs` with every tempo `× r`:
-well-formed, strictly ascending, first at zero, grid-compatible, 4/4; the tempo rows a permutation of its stored form;
-`BmsOk`; `HeaderOK`).  Under C05's remaining hypotheses **stated on the rated chart** the writer succeeds on the rated
-chart, the file has a by-the-book meaning `d`, `d.tempo` is the header tempo followed by exactly the rated tempo list,
-and the by-the-book time of the written position of every rated object time `t` is `t` — exactly whenever the
-*original* time `t · r` lies on the snap grid of the original tempo list (on-grid-ness is rate-invariant,
-`onGridAt_rate`), within 1/192 beat at the rated tempo otherwise.
+/-- **rate_write_read_bms_partial** — BMS, the whole file, by composition with C05's `bms_write_read`; **every
+hypothesis is about the UN-rated chart and `r`**.  `cs` a tempo list in C05's domain, `c` a chart whose tempo rows are
+(in any order) the stored form of `cs` with the first tempo point at time 0 (BMS has no file offset — ¬D35; the rated
+chart keeps it: `0 / r = 0`), `BmsOk`, `HeaderOK`, renderable collision-free rows `hR` / `hv`, lane items `items` in
+time order — all of the un-rated chart, exactly C05's domain — `r > 0`, and
 
-_partial_ — what is *not* derived from the un-rated chart and therefore stays a hypothesis on the rated one:
-* `hdec`: every rated tempo is a three-decimal number — genuinely not rate-invariant (open D06: `#BPMxx` is written
-  with `:.3f`; 156.25 · 1/4 is not);
-* `hR`, `hv`, `hitems`, `hasc`: renderable collision-free rows (measures 000–999: a rate `r < 1` can push a chart past
-  measure 999 — D36), lane order — these are stated through `posFn` (snaps as executed); their invariance needs the
-  `snaps` analogue of `beats_rate`, which is not proved here;
-* `hhdr`: the header of the rated chart is written (depends on the rendered tempo values);
-* the frame-level bridge from `rateChart .bms` to `rateB` (built for osu, Quaver, StepMania) is not built for BMS. -/
+  `hdec0 : ∀ b ∈ c.bpms, (b.bpm · r · 1000).den = 1`   (every rated tempo is a three-decimal number).
+
+Derived for the rated chart `rateB r c`: C05's whole domain — the tempo list `cs` with every tempo `× r` is well-formed,
+strictly ascending, first at zero, grid-compatible, 4/4; the tempo rows are a permutation of its stored form; `BmsOk`;
+`HeaderOK`; **the rows are the rows of the un-rated chart** (`bmsNoteRows_rate`, `bmsTempoRows_rate` through `posFn_rate`:
+`TimingMap.snaps` as executed sends the rated time on the rated map where it sends the original time on the original
+map, for every time, on the grid or off it — so measures ≤ 999 (¬D36), collisions and lane order cannot change under a
+rate); the lane items are the rated items; three-decimal tempos (`hdec_rate_iff`: `hdec0` is *equivalent* to C05's
+`hdec` on the rated chart); the header is written (`writeHeader_rate_ok`).  Conclusion: the writer succeeds on the rated
+chart, the file has a by-the-book meaning `d`, `d.tempo` is the header tempo followed by exactly the rated tempo list,
+and the by-the-book time of the written position of every object time `t` of the original chart is the rated time
+`t / r` — exactly whenever `t` lies on the snap grid of the original tempo list, within 1/192 beat at the rated tempo
+otherwise (the format's own snapping, C05).
+
+`hdec0` is necessary: `bms_rate_hdec_necessary` (156.25 bpm at rate 1/4 is written as 39.062 and the file drifts away
+from the rated chart — the open finding D06 reached through `rate`; replayed on the real code as D06's witness for C13).
+
+_partial_ — what is still missing for the clause "writing the rated chart and reading it back gives the rated timeline"
+on BMS: the frame-level bridge from `rateChart .bms` (the stacker model) to `rateB` (built for osu, Quaver, StepMania),
+and C05's own remaining gap between `denote` and `BMSMap.read` (C04). -/
 theorem rate_write_read_bms_partial {r : Rat} (hr : 0 < r) (cs : List BcSnap) (hwf : wfChanges cs = true)
     (hs : strictSnaps cs = true) (h0 : firstAtZero cs = true)
     (hgc : gridCompatible (grid defaultMaxDiv) cs = true) (hm : metronomeOk cs = true)
     (lay : Layout) (hlay : LayoutOK lay)
     (hts : lay.exbpmCh ≠ lay.timeSig ∧ ∀ lane ∈ lay.lanes, lane.1 ≠ lay.timeSig)
     (dflt : Bytes) (c : BMS.WChart) (hp : c.bpms.Perm (tmOf 0 cs)) (hok : BmsOk cs lay c) (hH : HeaderOK c)
-    (hR : RowsOK (bmsNoteRows (cs.map (rateBc r)) lay dflt (rateB r c) ++ bmsTempoRows (cs.map (rateBc r)) lay (rateB r c)))
-    (hv : ∀ x ∈ bmsNoteRows (cs.map (rateBc r)) lay dflt (rateB r c), x.value ≠ ['0', '0'])
-    (hdec : ∀ b ∈ (rateB r c).bpms, roundDec 3 b.bpm = b.bpm)
-    (hl : List Bytes) (hhdr : writeHeader (rateB r c) = .ok hl)
+    (hR : RowsOK (bmsNoteRows cs lay dflt c ++ bmsTempoRows cs lay c))
+    (hv : ∀ x ∈ bmsNoteRows cs lay dflt c, x.value ≠ ['0', '0'])
+    (hdec0 : ∀ b ∈ c.bpms, (b.bpm * r * 1000).den = 1)
     (items : Bytes × Nat → List TAtom)
-    (hitems : ∀ lane ∈ lay.lanes, (items lane).Perm (laneItems (rateB r c) dflt lane.2) ∧
-      (∀ a ∈ items lane, a.idOk (rateB r c).lnEnd))
+    (hitems : ∀ lane ∈ lay.lanes, (items lane).Perm (laneItems c dflt lane.2) ∧ (∀ a ∈ items lane, a.idOk c.lnEnd))
     (hasc : ∀ lane ∈ lay.lanes, ((items lane).flatMap TAtom.times).Pairwise (fun a b => a ≤ b)) :
     ∃ lines d b0, BMS.write defaultGrid lay dflt (rateB r c) = .ok lines ∧ BMS.denote lay lines = some d ∧
       (rateB r c).bpms.head? = some b0 ∧ d.tempo = ⟨b0.bpm, 4, ⟨0, 0, some 4⟩⟩ :: cs.map (rateBc r) ∧
       ∀ lane ∈ lay.lanes, ∀ a ∈ items lane, ∀ t ∈ a.times,
-        rabs (timeAt 0 d.tempo (posOf (posFn (cs.map (rateBc r)) t)) - t)
-            ≤ 1 / 192 * activeBeatLen 0 (cs.map (rateBc r)) t ∧
-        (OnGridAt (grid defaultMaxDiv) 0 cs (t * r) → timeAt 0 d.tempo (posOf (posFn (cs.map (rateBc r)) t)) = t) := by
+        rabs (timeAt 0 d.tempo (posOf (posFn cs t)) - t / r)
+            ≤ 1 / 192 * activeBeatLen 0 (cs.map (rateBc r)) (t / r) ∧
+        (OnGridAt (grid defaultMaxDiv) 0 cs t → timeAt 0 d.tempo (posOf (posFn cs t)) = t / r) := by
+  have hdec := (hdec_rate_iff r c).mpr hdec0
+  obtain ⟨hl, hhdr⟩ := writeHeader_rate_ok r cs h0 c hp hH hdec0
+  have hR' : RowsOK (bmsNoteRows (cs.map (rateBc r)) lay dflt (rateB r c)
+      ++ bmsTempoRows (cs.map (rateBc r)) lay (rateB r c)) := by
+    rw [bmsNoteRows_rate hr cs hwf, bmsTempoRows_rate hr cs hwf]; exact hR
+  have hv' : ∀ x ∈ bmsNoteRows (cs.map (rateBc r)) lay dflt (rateB r c), x.value ≠ ['0', '0'] := by
+    rw [bmsNoteRows_rate hr cs hwf]; exact hv
+  have hitems' : ∀ lane ∈ lay.lanes, ((items lane).map (rateAtom r)).Perm (laneItems (rateB r c) dflt lane.2) ∧
+      (∀ a ∈ (items lane).map (rateAtom r), a.idOk (rateB r c).lnEnd) := by
+    intro lane hlane
+    obtain ⟨p, q⟩ := hitems lane hlane
+    refine ⟨by rw [laneItems_rate]; exact p.map _, ?_⟩
+    intro a ha
+    obtain ⟨a0, ha0, rfl⟩ := List.mem_map.mp ha
+    exact (rateAtom_idOk r _ a0).mpr (q a0 ha0)
+  have hasc' : ∀ lane ∈ lay.lanes,
+      (((items lane).map (rateAtom r)).flatMap TAtom.times).Pairwise (fun a b => a ≤ b) := by
+    intro lane hlane
+    have hmono := hasc lane hlane
+    have e : ∀ l : List TAtom, (l.map (rateAtom r)).flatMap TAtom.times = (l.flatMap TAtom.times).map (· / r) := by
+      intro l
+      induction l with
+      | nil => rfl
+      | cons a l ih => simp only [List.map_cons, List.flatMap_cons, List.map_append, ih, rateAtom_times]
+    rw [e]
+    exact hmono.map _ (fun a b h => (le_div_iff_rate hr a b).mpr h)
   obtain ⟨lines, d, b0, h1, h2, h3, h4, _, _, _, _, h9⟩ :=
     bms_write_read (cs.map (rateBc r)) (wfChanges_rate hr cs hwf) (by rw [strictSnaps_rate]; exact hs)
       (by rw [firstAtZero_rate]; exact h0) (by rw [gridCompatible_rate]; exact hgc) (by rw [metronomeOk_rate]; exact hm)
-      lay hlay hts dflt (rateB r c) (bpms_perm_rate r c cs hp) (bmsOk_rate hr cs lay c hok) hR hv (headerOK_rate hr c hH)
-      hdec hl hhdr items hitems hasc
+      lay hlay hts dflt (rateB r c) (bpms_perm_rate r c cs hp) (bmsOk_rate hr cs lay c hok) hR' hv' (headerOK_rate hr c hH)
+      hdec hl hhdr (fun lane => (items lane).map (rateAtom r)) hitems' hasc'
   refine ⟨lines, d, b0, h1, h2, h3, h4, ?_⟩
   intro lane hlane a ha t ht
-  obtain ⟨e1, e2⟩ := h9 lane hlane a ha t ht
+  have ht' : t / r ∈ (rateAtom r a).times := by rw [rateAtom_times]; exact List.mem_map_of_mem ht
+  obtain ⟨e1, e2⟩ := h9 lane hlane (rateAtom r a) (List.mem_map_of_mem ha) (t / r) ht'
+  rw [posFn_rate hr cs hwf] at e1 e2
   refine ⟨e1, fun hg => e2 ?_⟩
-  have := (onGridAt_rate hr (grid defaultMaxDiv) 0 cs hwf (t * r)).mpr hg
-  have hr' : r ≠ 0 := ne_of_gt hr
-  simpa [mul_div_assoc, div_self hr'] using this
+  have := (onGridAt_rate hr (grid defaultMaxDiv) 0 cs hwf t).mpr hg
+  simpa using this
+
+open Timing BMS PermInv in
+/-- **the hypotheses of `rate_write_read_bms_partial` are satisfiable** with a non-trivial rate: C05's example chart
+(two tempo rows 120 / 60 bpm in reverse order, a hit and a hold, `PMS_5B`) at rate 3/2 — rated tempos 180 / 90, every
+time divided by 3/2 (the hold's tail 2000 ms becomes 1333.3… ms, not a whole millisecond). -/
+theorem rate_write_read_bms_nonvacuous :
+    ∃ lines d, BMS.write defaultGrid wrExLay "01".toList (rateB (3 / 2) wrExChart) = .ok lines ∧
+      BMS.denote wrExLay lines = some d ∧ d.tempo = ⟨90, 4, ⟨0, 0, some 4⟩⟩ :: wrExCs.map (rateBc (3 / 2)) ∧
+      timeAt 0 d.tempo (posOf (posFn wrExCs 2000)) = 2000 / (3 / 2) := by
+  have hlay := layouts_ok "PMS_5B" (by decide) wrExLay wrExLay_eq
+  have hts := layouts_timeSig "PMS_5B" (by decide) wrExLay wrExLay_eq
+  have hp : wrExChart.bpms.Perm (tmOf 0 wrExCs) := by rw [wrExCs_tm]; exact List.Perm.swap _ _ _
+  have hok : BmsOk wrExCs wrExLay wrExChart := by
+    refine ⟨by decide +kernel, by decide +kernel, by decide +kernel, by decide +kernel⟩
+  have hR : RowsOK (bmsNoteRows wrExCs wrExLay "01".toList wrExChart ++ bmsTempoRows wrExCs wrExLay wrExChart) := by
+    rw [wrExRows_eq]; exact wrExRowsOK
+  have hv : ∀ r ∈ bmsNoteRows wrExCs wrExLay "01".toList wrExChart, r.value ≠ ['0', '0'] := by
+    intro r hr
+    have : r ∈ wrExRows := by rw [← wrExRows_eq]; exact List.mem_append_left _ hr
+    have hall : ∀ r ∈ wrExRows, r.value ≠ ['0', '0'] := by decide +kernel
+    exact hall r this
+  have hH : HeaderOK wrExChart :=
+    ⟨by intro kv hkv; simp [wrExChart] at hkv, by intro kv hkv; simp [wrExChart] at hkv, by decide +kernel, by decide +kernel, by decide +kernel⟩
+  have hdec0 : ∀ b ∈ wrExChart.bpms, (b.bpm * (3 / 2 : Rat) * 1000).den = 1 := by decide +kernel
+  have hitems : ∀ lane ∈ wrExLay.lanes, (laneItems wrExChart "01".toList lane.2).Perm (laneItems wrExChart "01".toList lane.2) ∧
+      (∀ a ∈ laneItems wrExChart "01".toList lane.2, a.idOk wrExChart.lnEnd) := by
+    intro lane _
+    refine ⟨List.Perm.refl _, ?_⟩
+    intro a ha
+    simp only [laneItems, List.mem_append, List.mem_map] at ha
+    rcases ha with ⟨h, _, rfl⟩ | ⟨h, _, rfl⟩
+    · simp only [TAtom.idOk, wrExChart, sampleId, List.reverse_nil, List.find?_nil, Option.map_none, Option.getD_none]; decide
+    · simp only [TAtom.idOk, wrExChart, sampleId, List.reverse_nil, List.find?_nil, Option.map_none, Option.getD_none]; decide
+  have hasc : ∀ lane ∈ wrExLay.lanes,
+      ((laneItems wrExChart "01".toList lane.2).flatMap TAtom.times).Pairwise (fun a b => a ≤ b) := by decide +kernel
+  obtain ⟨lines, d, b0, hw, hd, hhead, htempo, htimes⟩ :=
+    rate_write_read_bms_partial (r := 3 / 2) (by norm_num) wrExCs wrExCs_ok.1 wrExCs_ok.2.1 wrExCs_ok.2.2.1 wrExCs_gc
+      wrExCs_ok.2.2.2 wrExLay hlay hts "01".toList wrExChart hp hok hH hR hv hdec0
+      (fun lane => laneItems wrExChart "01".toList lane.2) hitems hasc
+  have hb0 : b0 = ⟨90, 4, 2000 / (3 / 2)⟩ := by
+    have : (rateB (3 / 2) wrExChart).bpms.head? = some ⟨90, 4, 2000 / (3 / 2)⟩ := by
+      simp only [rateB, wrExChart, List.map_cons, List.head?_cons, rateBcOff]
+      norm_num
+    rw [this] at hhead
+    exact (Option.some.inj hhead).symm
+  refine ⟨lines, d, hw, hd, by rw [htempo, hb0], ?_⟩
+  -- the hold of column 1 (lane of `PMS_5B`) ends at 2000 ms, on the grid (the second tempo point)
+  have hlane : (("14".toList, 1) : Bytes × Nat) ∈ wrExLay.lanes := by decide +kernel
+  have hmem : TAtom.hold 0 2000 (sampleId wrExChart.samples "01".toList []) ∈ laneItems wrExChart "01".toList 1 := by
+    simp [laneItems, wrExChart]
+  have hg : OnGridAt (grid defaultMaxDiv) 0 wrExCs 2000 := by
+    have h0 : (0 : Rat) ∈ grid defaultMaxDiv := zero_mem_grid (by decide)
+    refine ⟨by norm_num, ?_⟩
+    simp only [onGridAux]
+    have e : (0 : Rat) + snapDist (⟨0, 0, some 4⟩ : Snap) ⟨1, 0, some 4⟩ 4 * beatLen 120 = 2000 := by decide +kernel
+    rw [e]
+    simp only [le_refl, if_true]
+    have : frac ((2000 - 2000 : Rat) / beatLen 60) = 0 := by decide +kernel
+    rw [this]; exact h0
+  exact (htimes _ hlane _ hmem 2000 (by simp [TAtom.times])).2 hg
 
 /-- non-vacuity of `WChartOk`: one tempo (120 bpm from 1000 ms), a hit on beat 1 and a hold from beat 2 to 3 -/
 def exW : SM.WChart :=
